@@ -42,7 +42,7 @@ claim('C13',
       'and integer arithmetic are refuted for all inputs at once; single-precision rounding is not decided.',
       'Trusted: formula table (DESIGN Appendix B1); numba compiles kernels as written; map_blocks applies the block '
       'function per aligned block. ARVI and SAVI deviate from the literature (known findings D12, pinned by tests).',
-      'symbolic kernel interpretation + public-name binding through the call graph, compared with a formula table',
+      'symbolic kernel interpretation + public-name binding through the call graph, compared with a formula table; wrapper terms for true_color channels',
       'DESIGN.md §4 C13')
 claim('C17',
       'Static analysis of xrspatial/local.py: decides for every input the structural premises of the per-cell '
@@ -63,7 +63,7 @@ claim('C18',
       'of the right raster returned unmodified except for its name.',
       'Trusted: the half-page argument that these premises give the bounding box of kept cells; xarray basic '
       'slicing keeps cells, coordinates and attrs. Behaviour when nothing is kept is not decided.',
-      'structural scan-skeleton extraction + NaN-aware-equality recognition through helper calls',
+      'symbolic interpretation of the scan kernels (end-of-iteration values, break paths, flag-setting loop summaries) + decision tables for the keep test and the NaN-aware equality; wrapper terms for the returned window; syntactic scan-skeleton rule as fallback',
       'DESIGN.md §4 C18')
 
 claim('C10',
@@ -126,7 +126,7 @@ claim('C07',
       '(outside the property\'s domain), and the exactness of the sweep itself (C06).',
       'Trusted: da.map_overlap semantics (halo, NaN boundary, chunk unification of multiple arrays); integer cell '
       'offsets need floor(max_distance/cellsize) halo cells.',
-      'site resolution + symbolic pad-form check (exact rational arithmetic) + structural fallback rule',
+      'site resolution + symbolic pad-form check (exact rational arithmetic) + wrapper terms for the arrays and coordinate grids handed to the block function (grids evaluated with list models of the NumPy constructors) + structural fallback rule',
       'DESIGN.md §4 C07')
 
 ZONAL_NOTE = ('Trusted: np.argsort / np.unique / np.sort semantics (ascending, NaN and +inf last, -inf first), pandas/dask '
@@ -192,7 +192,7 @@ claim('C16',
       'Trusted: the paper argument that R1-R3 + an equivalence matching relation give exactly the connected '
       'components (cross-checked by hand). For float rasters the tolerance relation is not transitive; the property '
       'restricts itself to integer-valued rasters. Identity of coords/attrs is decided under C10.',
-      'abstract interpretation of the labelling kernel (window stores, loop-carried labels, break paths) evaluated on finite decision tables + dtype-provenance rules',
+      'abstract interpretation of the labelling kernel (window stores, loop-carried labels, break paths) evaluated on finite decision tables + dtype-provenance rules + wrapper terms for the kernel call',
       'DESIGN.md §4 C16')
 
 claim('C14',
@@ -209,7 +209,7 @@ claim('C14',
       'is the minimum over all routes and that no route implies all-NaN - these need the A* open/closed invariants.',
       'Trusted: admissible + consistent heuristic and correct relaxation imply optimality only together with the '
       'bookkeeping invariants, which are not checked.',
-      'symbolic form checks (exact rationals) + rules on the abstract interpretation of the search kernel, reconstruction and argmin scans (guards evaluated on finite tables, loop-carried updates, call records)',
+      'symbolic form checks (exact rationals) + rules on the abstract interpretation of the search kernel, reconstruction and argmin scans (guards evaluated on finite tables, loop-carried updates, call records) + constant folding of the neighbourhood tables',
       'DESIGN.md §4 C14')
 
 claim('C19',
@@ -226,7 +226,7 @@ claim('C19',
       'ndarrays. Not decided: the triangle inequality under floating-point rounding.',
       'Trusted: the textbook facts that norms are metrics and that the haversine formula gives the great-circle '
       'distance (<= pi*R); SI unit factors.',
-      'symbolic normal-form comparison against formula templates + parity analysis + table/guard extraction',
+      'symbolic normal-form comparison against formula templates + parity analysis + evaluated range guards and metric dispatch + constant folding of the unit / metric tables',
       'DESIGN.md §4 C19')
 
 claim('C09',
@@ -302,9 +302,9 @@ claim('C15',
       'matched with ==; G7 row-major flattening with nx columns, single-column workaround, argument wiring. NOT '
       'decided (declined): correctness of the merge chain, hole attribution and boundary following for all '
       'topologies, i.e. that the polygons are exactly the connected regions and rasterise back losslessly.',
-      'Trusted: nothing beyond the AST; the declined core needs invariants of the merge forest and of the turn rules '
+      'Trusted: the interpreter\'s models of the NumPy calls involved; the declined core needs invariants of the merge forest and of the turn rules '
       'over all region topologies.',
-      'offset-consistency rule over neighbour tests + must-pass-through (transform) + symbolic affine-map check',
+      'symbolic interpretation of the labelling kernel, the boundary follower and the start-pixel scan (roles of variables found from behaviour, decision tables evaluated exactly, program-ordered call / append events) + wrapper terms for the argument wiring + symbolic affine-map check',
       'DESIGN.md §4 C15')
 
 ALL = ['C%02d' % i for i in range(1, 20)]
